@@ -642,6 +642,8 @@ def c11_job(chk, rng, i):
                 return (kind, rng.rint(1, nslot - 1), si, rng.chance(75))
             return (kind, rng.rint(1, nslot - 1), si)
         if t < 11:
+            if rng.chance(30):
+                return ("gdelrestart", rng.below(nsrc))
             return (rng.choice(["gflush", "greflush"]), rng.below(nslot))
         return ("gpush", rng.below(nslot))
     for r in case["rules"]:
@@ -665,6 +667,9 @@ def c11_job(chk, rng, i):
         after = [deep] + after
     case["driver"] = {"init": [("open_buf", 0)], "after": after}
     small_first = (i % 6 == 4)
+    if i % 6 == 3:
+        # the first thing the program does is yyrestart(file): no buffer and no yyin yet
+        case["driver"]["init"] = [("open_restart", 0)]
     if small_first:
         # REJECT machinery (state buffer sized from the first buffer) + a tiny first buffer
         # + larger buffers pushed / switched to later, holding longer tokens
